@@ -4,6 +4,7 @@ import flow
 import harness as H
 import riemann_corr as RC
 import mader_corr as MC
+import guderley_corr as GDC
 import admissible_oracle as AO
 from props import c01
 
@@ -23,6 +24,9 @@ UNITS = [
               note='rare() regenerated from the source; transition cell between the constant state and the fan value at its front edge; fan cells between '
                    'their edge values (mean-value theorem); constant state positive'),
     flow.Unit('noh', groups=['noh'], props=['props/C17_noh.v'], corr=[dict(gen='Noh1', pfx='noh', n=4, spec=c01.NOHSPEC)], oracle=oracle_of('noh')),
+    flow.Unit('guderley', groups=['guderley'], props=['props/C17_guderley.v'], custom_corr=GDC.unit_corr, oracle=oracle_of('guderley'),
+              note='Guderley: the coded reflected-shock jump is compressive and leaves the flow subsonic relative to the shock whenever the state ahead is supersonic '
+                   'relative to it; converging shock compresses by (gamma+1)/(gamma-1) (theorems on the regenerated jump / start values)'),
     flow.Unit('real-code', groups=[], props=[], oracle=oracle_of('noh', 'sedov', 'guderley', 'riemann', 'ehep', 'mader', 'sdrz', 'piston', 'suolson'),
               always_oracle=True,
               note='signs, compressive shocks, monotone fans and between-ness along fine point sequences on the REAL solvers: Noh, Sedov (standard, singular, '
